@@ -168,6 +168,7 @@ pub fn run(ctx: &Ctx) {
             )
         });
         let case = json!({"kind": "x25519_pub", "k": hex(k)});
+        ctx.case(&case.to_string());
         match r {
             Ok((a, b, c, d, sb, e)) => {
                 if a != want_pub || b != want_pub || c != want_pub || d != want_pub || e != want_pub {
@@ -184,6 +185,7 @@ pub fn run(ctx: &Ctx) {
             ctx.eval(1);
             let want = mont::x25519(k, u);
             let case = json!({"kind": "x25519", "k": hex(k), "u": hex(u)});
+            ctx.case(&case.to_string());
             let r = guarded(|| {
                 let raw = x25519_dalek::x25519(*k, *u);
                 let pk = PublicKey::from(*u);
@@ -240,6 +242,7 @@ pub fn run(ctx: &Ctx) {
                 ctx.eval(1);
                 let want = mont::ladder(s, 255, &Fp::from_bytes(u)).to_bytes();
                 let case = json!({"kind": "mont_mul", "scalar": s.hex(), "u": hex(u)});
+                ctx.case(&case.to_string());
                 match guarded(|| ((&MontgomeryPoint(*u) * &sc).to_bytes(), (&sc * &MontgomeryPoint(*u)).to_bytes(), { let mut m = MontgomeryPoint(*u); m *= &sc; m.to_bytes() })) {
                     Ok((a, b, c)) => {
                         ctx.record(&format!("mont.mul_u/{}/{}", s.hex(), hex(u)), &a);
@@ -275,6 +278,7 @@ pub fn run(ctx: &Ctx) {
                 ctx.eval(1);
                 let want = mont::ladder_bits_be(bits, &Fp::from_bytes(u)).to_bytes();
                 let case = json!({"kind": "mul_bits_be", "bits": bits.iter().map(|b| if *b { '1' } else { '0' }).collect::<String>(), "u": hex(u)});
+                ctx.case(&case.to_string());
                 match guarded(|| MontgomeryPoint(*u).mul_bits_be(bits.iter().cloned()).to_bytes()) {
                     Ok(g) => {
                         if g != want {
@@ -317,6 +321,7 @@ pub fn run(ctx: &Ctx) {
             ctx.eval(1);
             let m = mont::to_edwards(&Fp::from_bytes(u), sign == 1);
             let case = json!({"kind": "to_edwards", "u": hex(u), "sign": sign});
+            ctx.case(&case.to_string());
             match guarded(|| MontgomeryPoint(*u).to_edwards(sign)) {
                 Ok(g) => {
                     ctx.record(&format!("mont.to_edwards/{}/{}", hex(u), sign), &g.map(|p| p.compress().0.to_vec()).unwrap_or_default());
@@ -358,6 +363,7 @@ pub fn run(ctx: &Ctx) {
             let sk = ed25519_dalek::SigningKey::from_bytes(sa);
             let h = eddsa::sha512(&[sa]);
             let case = json!({"kind": "ed_to_x", "seed": hex(sa)});
+            ctx.case(&case.to_string());
             if sk.to_scalar_bytes()[..] != h[..32] {
                 ctx.violation("sig.to_scalar_bytes", "differs from the low half of SHA-512(seed)", case.clone());
             }
@@ -385,6 +391,5 @@ pub fn run(ctx: &Ctx) {
     ctx.count("u_on_twist", s[1]);
     ctx.count("u_noncanonical_or_bit255", s[2]);
     ctx.count("to_edwards_none", s[3]);
-    ctx.nontriv((ks.len() * uu.len()) as u64);
     ctx.sample_tag("x25519", json!({"k": hex(&ks[ks.len() / 2]), "u": hex(&uu[3]), "note": "u = p-1 (u = -1)"}));
 }
